@@ -373,7 +373,19 @@ func c14Round(rep *vk.Report, prop string, idx int, kinds []string, salt int) {
 	case <-time.After(65 * time.Second):
 		st := allStacks()
 		rep.Abort()
-		if where, n := libraryDeadlock(st); n > 0 {
+		where, n := libraryDeadlock(st)
+		if n == 0 {
+			// whatever is blocked now may have been blocked for less than the minute the runtime needs to say so
+			select {
+			case <-fin:
+				rep.Inconclusive("C14 round over " + name + " took more than 65s")
+				return
+			case <-time.After(62 * time.Second):
+			}
+			st = allStacks()
+			where, n = libraryDeadlock(st)
+		}
+		if n > 0 {
 			rep.Violate(idx, prop+"/deadlock-inside-library", fmt.Sprintf("round over %s did not finish in 65s (every wait in it is bounded by a few ms): %d goroutines have been blocked for over a minute with library code on top of their stack (%s) and no user function is running inside any execution", name, n, where), map[string]any{"composition": name, "stacks": st[:min(len(st), 12000)]})
 		} else if strings.Contains(st, "sync.(*Mutex).Lock") && strings.Contains(st, "github.com/failsafe-go/failsafe-go/") {
 			rep.Violate(idx, prop+"/stuck-on-library-mutex", fmt.Sprintf("round over %s did not finish in 65s (every wait in it is bounded by a few ms); goroutines are parked on a mutex inside the library", name), map[string]any{"composition": name, "stacks": st[:min(len(st), 12000)]})
